@@ -465,4 +465,160 @@ theorem addGeometry_multiLineString (idx : Nat) (ls : List (List Pt)) (G : Graph
 
 theorem nodeOn_empty (idx : Nat) (p : Pt) : Graph.empty.nodeOn idx p = none := rfl
 
+/-! ### node-map order is label-blind -/
+
+theorem insertNodeSorted_swap (n : Node) (ns : List Node) :
+    insertNodeSorted n.swap (ns.map Node.swap) = (insertNodeSorted n ns).map Node.swap := by
+  induction ns with
+  | nil => rfl
+  | cons m ms ih =>
+    have hm : (Node.swap m).coord = m.coord := rfl
+    have hn : (Node.swap n).coord = n.coord := rfl
+    by_cases h : lexLt m.coord n.coord = true
+    · simp only [List.map_cons, insertNodeSorted, hm, hn, h, if_true]; rw [ih]
+    · simp only [List.map_cons, insertNodeSorted, hm, hn, h]; rfl
+
+theorem sortNodes_swap (ns : List Node) : sortNodes (ns.map Node.swap) = (sortNodes ns).map Node.swap := by
+  induction ns with
+  | nil => rfl
+  | cons n ns ih =>
+    simp only [sortNodes, List.map_cons, List.foldr_cons] at ih ⊢
+    rw [ih, insertNodeSorted_swap]
+
+/-! ### building for index 0 leaves slot 1 unset -/
+
+/-- slot `b` (argument index 1) of the label is unset -/
+def BEmpty (l : Label) : Prop := l.b = .emptyLine ∨ l.b = .emptyArea
+
+def GraphBEmpty (G : Graph) : Prop := (∀ n ∈ G.nodes, BEmpty n.label) ∧ (∀ e ∈ G.edges, BEmpty e.label)
+
+theorem bEmpty_new0 (t : TopoPos) : BEmpty (Label.new 0 t) := by
+  cases t with
+  | area _ _ _ => exact Or.inr rfl
+  | lineOrPoint _ => exact Or.inl rfl
+
+theorem bEmpty_setOn0 (l : Label) (p : Pos) (h : BEmpty l) : BEmpty (l.setOn 0 p) := by
+  cases l; exact h
+
+theorem bEmpty_boundaryUpdate0 (l : Label) (h : BEmpty l) : BEmpty (boundaryUpdate 0 l) :=
+  bEmpty_setOn0 _ _ h
+
+theorem bEmpty_emptyLine : BEmpty Label.emptyLine := Or.inl rfl
+
+theorem upsert_bEmpty (c : Pt) (f : Label → Label) (hf : ∀ l, BEmpty l → BEmpty (f l)) (ns : List Node)
+    (h : ∀ n ∈ ns, BEmpty n.label) : ∀ n ∈ upsertNode c f ns, BEmpty n.label := by
+  induction ns with
+  | nil =>
+    intro n hn
+    simp only [upsertNode, List.mem_singleton] at hn
+    subst hn; exact hf _ bEmpty_emptyLine
+  | cons m ms ih =>
+    intro n hn
+    by_cases hc : m.coord = c
+    · simp only [upsertNode, hc, if_true, List.mem_cons] at hn
+      rcases hn with rfl | hn
+      · exact hf _ (h m List.mem_cons_self)
+      · exact h n (List.mem_cons_of_mem _ hn)
+    · simp only [upsertNode, hc, if_false, List.mem_cons] at hn
+      rcases hn with rfl | hn
+      · exact h _ List.mem_cons_self
+      · exact ih (fun n hn => h n (List.mem_cons_of_mem _ hn)) n hn
+
+theorem inv_empty : GraphBEmpty Graph.empty := ⟨by simp [Graph.empty], by simp [Graph.empty]⟩
+
+theorem inv_insertEdge (e : Edge) (G : Graph) (he : BEmpty e.label) (h : GraphBEmpty G) :
+    GraphBEmpty (insertEdge e G) := by
+  refine ⟨h.1, ?_⟩
+  intro e' he'
+  simp only [insertEdge, List.mem_append, List.mem_singleton] at he'
+  rcases he' with he' | rfl
+  · exact h.2 _ he'
+  · exact he
+
+theorem inv_insertPoint (c : Pt) (p : Pos) (G : Graph) (h : GraphBEmpty G) :
+    GraphBEmpty (insertPoint 0 c p G) :=
+  ⟨upsert_bEmpty c _ (fun l hl => bEmpty_setOn0 l p hl) _ h.1, h.2⟩
+
+theorem inv_insertBoundaryPoint (c : Pt) (G : Graph) (h : GraphBEmpty G) :
+    GraphBEmpty (insertBoundaryPoint 0 c G) :=
+  ⟨upsert_bEmpty c _ (fun l hl => bEmpty_boundaryUpdate0 l hl) _ h.1, h.2⟩
+
+theorem inv_addLineString (cs : List Pt) (G : Graph) (h : GraphBEmpty G) :
+    GraphBEmpty (addLineString 0 cs G) := by
+  unfold addLineString
+  split
+  · exact h
+  · exact inv_insertPoint _ _ _ h
+  · exact inv_insertEdge _ _ (bEmpty_new0 _) (inv_insertBoundaryPoint _ _ (inv_insertBoundaryPoint _ _ h))
+
+theorem inv_addPolygonRing (ring : List Pt) (l r : Pos) (G : Graph) (h : GraphBEmpty G) :
+    GraphBEmpty (addPolygonRing 0 ring l r G) := by
+  unfold addPolygonRing
+  split
+  · exact h
+  · exact inv_insertPoint _ _ _ (inv_insertEdge _ _ (bEmpty_new0 _) h)
+
+theorem inv_addHoles (hs : List (List Pt)) (G : Graph) (h : GraphBEmpty G) : GraphBEmpty (addHoles 0 hs G) := by
+  induction hs generalizing G with
+  | nil => exact h
+  | cons x xs ih => exact ih _ (inv_addPolygonRing _ _ _ _ h)
+
+theorem inv_addPolygon (p : Poly) (G : Graph) (h : GraphBEmpty G) : GraphBEmpty (addPolygon 0 p G) :=
+  inv_addHoles _ _ (inv_addPolygonRing _ _ _ _ h)
+
+theorem inv_addPoints (ps : List Pt) (G : Graph) (h : GraphBEmpty G) : GraphBEmpty (addPoints 0 ps G) := by
+  induction ps generalizing G with
+  | nil => exact h
+  | cons x xs ih => exact ih _ (inv_insertPoint _ _ _ h)
+
+theorem inv_addLineStrings (ls : List (List Pt)) (G : Graph) (h : GraphBEmpty G) :
+    GraphBEmpty (addLineStrings 0 ls G) := by
+  induction ls generalizing G with
+  | nil => exact h
+  | cons x xs ih => exact ih _ (inv_addLineString _ _ h)
+
+theorem inv_addPolygons (ps : List Poly) (G : Graph) (h : GraphBEmpty G) : GraphBEmpty (addPolygons 0 ps G) := by
+  induction ps generalizing G with
+  | nil => exact h
+  | cons x xs ih => exact ih _ (inv_addPolygon _ _ h)
+
+mutual
+theorem inv_addGeometry : ∀ (g : Geom) (G : Graph), GraphBEmpty G → GraphBEmpty (addGeometry 0 g G)
+  | .point p, G, h => by simp only [addGeometry]; exact inv_insertPoint _ _ _ h
+  | .line a b, G, h => by
+    simp only [addGeometry, addLine]
+    exact inv_insertEdge _ _ (bEmpty_new0 _) (inv_insertBoundaryPoint _ _ (inv_insertBoundaryPoint _ _ h))
+  | .lineString cs, G, h => by
+    simp only [addGeometry]; split
+    · exact h
+    · exact inv_addLineString _ _ h
+  | .polygon p, G, h => by
+    simp only [addGeometry]; split
+    · exact h
+    · exact inv_addPolygon _ _ h
+  | .multiPoint ps, G, h => by
+    simp only [addGeometry]; split
+    · exact h
+    · exact inv_addPoints _ _ h
+  | .multiLineString ls, G, h => by
+    simp only [addGeometry]; split
+    · exact h
+    · exact inv_addLineStrings _ _ h
+  | .multiPolygon ps, G, h => by
+    simp only [addGeometry]; split
+    · exact h
+    · exact inv_addPolygons _ _ h
+  | .rect mn mx, G, h => by simp only [addGeometry]; exact inv_addPolygon _ _ h
+  | .triangle a b c, G, h => by simp only [addGeometry]; exact inv_addPolygon _ _ h
+  | .collection gs, G, h => by
+    simp only [addGeometry]; split
+    · exact h
+    · exact inv_addGeometries gs G h
+theorem inv_addGeometries : ∀ (gs : List Geom) (G : Graph), GraphBEmpty G → GraphBEmpty (addGeometries 0 gs G)
+  | [], G, h => by simp only [addGeometries]; exact h
+  | g :: gs, G, h => by
+    simp only [addGeometries]
+    exact inv_addGeometries gs _ (inv_addGeometry g G h)
+end
+
 end Geo.Proofs.C17L
